@@ -96,10 +96,11 @@ OPS2 = {
 `
 
 type objEnv struct {
-	L     *lua.LState
-	ops   *lua.LTable
-	mkobj lua.LValue
-	n     int
+	stackBad string // set when an object-level call disturbed the calling activation's list
+	L        *lua.LState
+	ops      *lua.LTable
+	mkobj    lua.LValue
+	n        int
 }
 
 func newObjEnv() *objEnv {
@@ -230,7 +231,15 @@ func (e *objEnv) canon(vs []lua.LValue) string {
 func (e *objEnv) goCall(f func(L *lua.LState) []lua.LValue) (string, bool) {
 	var out []lua.LValue
 	fn := e.L.NewFunction(func(L *lua.LState) int {
+		// the object-level calls leave the activation's list as they found it:
+		// two sentinels below, nothing above
+		s1, s2 := lua.LString("sentinel-1"), lua.LNumber(-424242)
+		L.Push(s1)
+		L.Push(s2)
 		out = f(L)
+		if L.GetTop() != 2 || L.Get(1) != s1 || L.Get(2) != s2 || L.Get(-1) != s2 || L.Get(3) != lua.LNil {
+			e.stackBad = fmt.Sprintf("after the call the host function's list is top=%d [%v %v %v], it was top=2 [sentinel-1 -424242 nil]", L.GetTop(), L.Get(1), L.Get(2), L.Get(3))
+		}
 		return 0
 	})
 	o := gl.Protect(func() error { return e.L.CallByParam(lua.P{Fn: fn, NRet: 0, Protect: true}) })
@@ -420,6 +429,9 @@ func runObjRand(c *fw.Ctx, e *objEnv, cs *ObjCase, count bool) {
 	lRes, lOK, lLog, lDump := e.eval(cs, false)
 	bad := ""
 	switch {
+	case e.stackBad != "":
+		bad = "the Go API call is not stack-neutral inside a host function: " + e.stackBad
+		e.stackBad = ""
 	case strings.HasPrefix(gRes, "GOPANIC"):
 		bad = "Go API panicked: " + gRes
 	case strings.HasPrefix(lRes, "GOPANIC"):
